@@ -229,7 +229,7 @@ class TxSub(Sub):
                         garbage=draw(bits(32)))
         return st.fixed_dictionaries(dict(
             pkts=long_lists(pkt(), min_size=1, max_size=5, average=3),
-            ready=st.lists(weighted([(1, 3), (0, 2)]), min_size=1, max_size=24)))
+            ready=st.lists(weighted([(1, 3), (0, 2)]), min_size=3, max_size=24)))
 
     def run(self, case):
         pkts = case["pkts"]
